@@ -123,6 +123,11 @@ def warmUp (st : VP8Pay) : Nat → VP8Pay
 def obsRt (enable : Bool) (warm : Nat) (calls : List (UInt16 × Option Bytes)) : List (List FragObs) :=
   obsRtFrom (warmUp { enablePictureID := enable } warm) {} calls
 
+/-- the same when the first `flipAt` of the `warm` earlier frames were sent with `EnablePictureID`
+    at the other value and the caller then set the public field by hand (`flipAt = 0`: `obsRt`) -/
+def obsRtFlip (enable : Bool) (warm flipAt : Nat) (calls : List (UInt16 × Option Bytes)) : List (List FragObs) :=
+  obsRtFrom (warmUp { warmUp { enablePictureID := !enable } flipAt with enablePictureID := enable } (warm - flipAt)) {} calls
+
 /-! ### c08.vp8 / c09.vp8 -/
 
 def obsPay (enable : Bool) (calls : List (UInt16 × Option Bytes)) : List PayObs :=
